@@ -6,7 +6,11 @@ package main
 // NEW geometry and with a fresh query object: everything the query cached about the old index
 // (covering cells, index-cell pointers, edge counts) must be gone.
 
-import "fmt"
+import (
+	"fmt"
+
+	"github.com/golang/geo/s2"
+)
 
 func (r *runner) resetStream(budget int) {
 	rng := r.rng
@@ -31,10 +35,17 @@ func (r *runner) resetStream(budget int) {
 		t2 := genTarget(rng, g2, far, kinds[(i+1)%4])
 		edges, interiors := candidates(g2, t2)
 		c.Class("stream:query-reset-after-reindex")
-		rs := query.FindEdges(t2.make())
-		c.Eval(fmt.Sprintf("reset|%s|%s|%s|%d", g1.desc, g2.desc, t2.desc, i), true)
 		rp := replayOf(g2, t2, q)
 		rp["history"] = []string{"FindEdges on the first geometry (" + g1.desc + ")", "ShapeIndex.Reset, Add..., Build", "EdgeQuery.Reset", "FindEdges"}
+		rs, pan := func() (rs []s2.EdgeQueryResult, pan interface{}) {
+			defer func() { pan = recover() }()
+			return query.FindEdges(t2.make()), nil
+		}()
+		c.Eval(fmt.Sprintf("reset|%s|%s|%s|%d", g1.desc, g2.desc, t2.desc, i), true)
+		if pan != nil {
+			r.violate("EdgeQuery.afterReset.panic", fmt.Sprintf("query object reused after ShapeIndex.Reset/Add/Build and EdgeQuery.Reset panics: %v", pan), rp)
+			continue
+		}
 		if bad, msg := outOfRange(rs); bad {
 			r.violate("EdgeQuery.reportedDistance.outOfRange", "after re-indexing and EdgeQuery.Reset: "+msg, rp)
 			continue
